@@ -2467,6 +2467,14 @@ ENTITY_ATTRS = [[{"format": NF_URI, "name": "urn:oasis:names:tc:SAML:profiles:su
                  {"format": "urn:oasis:names:tc:SAML:2.0:attrname-format:basic", "name": "n2", "values": []}]]
 
 
+# A configuration may spell a boolean option as a Python boolean, as an integer, or - read from JSON / YAML / ini /
+# environment text - as the words true / false in any case or as "1" / "0" (Base.__init__ reads such text by what it
+# says); the metadata schema types the attribute xs:boolean: lexical forms true / false / 1 / 0 only.
+BOOL_SPELLINGS = [True, False, "true", "false", "True", "False", "TRUE", "FALSE", "tRuE", "fAlse", "1", "0", 1, 0]
+MD_BOOL_OPTIONS = [("sp_want_assertions_signed", "sp"), ("sp_authn_requests_signed", "sp"),
+                   ("idp_want_authn_requests_signed", "idp")]
+
+
 def gen_metadata(ctx, rng):
     out = []
 
@@ -2498,9 +2506,9 @@ def gen_metadata(ctx, rng):
         if r() < .3:
             cfg["sp_name_id_format"] = _pick(rng, [TRANSIENT, [PERSISTENT, EMAIL]])
         if r() < .3:
-            cfg["sp_want_assertions_signed"] = _pick(rng, [True, False, "true"])
+            cfg["sp_want_assertions_signed"] = _pick(rng, BOOL_SPELLINGS)
         if r() < .3:
-            cfg["sp_authn_requests_signed"] = _pick(rng, [True, False])
+            cfg["sp_authn_requests_signed"] = _pick(rng, BOOL_SPELLINGS)
         if r() < .2:
             cfg["valid_for"] = _pick(rng, [1, 24, 168])
         if r() < .2:
@@ -2534,7 +2542,7 @@ def gen_metadata(ctx, rng):
         if r() < .3:
             cfg["idp_name_id_format"] = _pick(rng, [TRANSIENT, [PERSISTENT, EMAIL]])
         if r() < .3:
-            cfg["idp_want_authn_requests_signed"] = _pick(rng, [True, False])
+            cfg["idp_want_authn_requests_signed"] = _pick(rng, BOOL_SPELLINGS)
         if r() < .2:
             cfg["idp_error_url"] = "https://idp.example.org/error"
         if r() < .2:
@@ -2572,6 +2580,21 @@ def gen_metadata(ctx, rng):
     for spt in [("public", True), ("private", True), ("public", False)]:
         out.append(case("entity_descriptor", {"who": "sp"}, {"sp_sp_type": spt[0], "sp_sp_type_in_metadata": spt[1],
                                                               "sp_requested_attributes": EIDAS_ATTRS[0]}, "md-eidas"))
+    # every legal spelling of the boolean options that end up as xs:boolean attributes of the role descriptors
+    # (WantAssertionsSigned, AuthnRequestsSigned, WantAuthnRequestsSigned): each option alone, complete; the two SP
+    # options together in mixed spellings; the same through every metadata entry point
+    for opt, who in MD_BOOL_OPTIONS:
+        for v in BOOL_SPELLINGS:
+            out.append(case("entity_descriptor", {"who": who}, {opt: v}, "md-boolspelling"))
+    for i, v in enumerate(BOOL_SPELLINGS):
+        w = BOOL_SPELLINGS[(i * 5 + 3) % len(BOOL_SPELLINGS)]
+        kind = ["metadata_string", "entities_descriptor", "signed_entity_descriptor"][i % 3]
+        a = {"who": "sp"}
+        if kind == "metadata_string":
+            a.update({"valid": "24" if i % 2 else None, "sign": True if i % 4 == 0 else None})
+        elif kind == "entities_descriptor":
+            a.update({"valid_for": 4, "name": "federation", "sign": True if i % 2 else None})
+        out.append(case(kind, a, {"sp_want_assertions_signed": v, "sp_authn_requests_signed": w}, "md-boolspelling"))
     for _ in range(400 if ctx.thorough else 70):
         who = _pick(rng, ["sp", "idp"])
         cfg = sp_md_cfg() if who == "sp" else idp_md_cfg()
@@ -3460,7 +3483,11 @@ RULE = ("quick: complete AllowCreate lattice nameid_format(4) x configured forma
         "required_attributes / optional_attributes of the metadata under the same directories; seeded mixtures (own generator, "
         "fixed seed); "
         "metadata generation over roles x ui_info / organisation / contacts / entity attributes "
-        "and categories / eIDAS options / endpoints / key usage / signing; seeded random mixtures; plus one injected defect "
+        "and categories / eIDAS options / endpoints / key usage / signing; the boolean options of the role descriptors "
+        "(want_assertions_signed, authn_requests_signed, want_authn_requests_signed) each in 14 spellings (Python booleans, "
+        "1 / 0, '1' / '0', the words true / false in lower, capitalised, upper and mixed case) completely through "
+        "entity_descriptor, pairs in mixed spellings through create_metadata_string / entities_descriptor / "
+        "sign_entity_descriptor, and in the random mixtures; seeded random mixtures; plus one injected defect "
         "(swap, drop / duplicate child, drop / corrupt / add attribute, foreign child, stray text) into a sample of the outputs; "
         "plus instant() at calendar boundaries and random time stamps and sid() samples.  thorough: the full six-fold products "
         "and 1500 injected defects.  non-trivial = distinct (builder, element/attribute shape of the output, defect kind, "
